@@ -108,6 +108,7 @@ class ScriptedSource(ScheduleSource):
         self.specs: Dict[int, Dict[str, Any]] = {}
         self.npolls = 0
         self.broker = broker
+        self.kickers: Dict[Any, Any] = {}
         for s in spec.get("sched", []):
             self.add(s)
         if spec.get("pre") == "async" and spec.get("future"):
@@ -128,14 +129,19 @@ class ScriptedSource(ScheduleSource):
         if s.get("viak") and self.broker is not None:
             # the schedule is created the public way: kicker.schedule_by_cron / schedule_by_time -> source.add_schedule()
             want = mk_task(s)
-            kicker = AsyncKicker(task_name=want.task_name, broker=self.broker, labels={}).with_labels(
-                **{k: v for k, v in want.labels.items() if k != "schedule_id"}).with_schedule_id(want.schedule_id)
+            # one prepared kicker per task name, used again for every further schedule of that task
+            # (schedules that leave the id to the kicker share one that is never given an id: each gets a generated id of its own)
+            kicker = self.kickers.setdefault((want.task_name, bool(s.get("noid"))),
+                                             AsyncKicker(task_name=want.task_name, broker=self.broker, labels={}))
+            kicker = kicker.with_labels(**{k: v for k, v in want.labels.items() if k != "schedule_id"})
+            if not s.get("noid"):
+                kicker = kicker.with_schedule_id(want.schedule_id)
             if want.cron is not None:
                 coro = kicker.schedule_by_cron(self, want.cron, *want.args, **want.kwargs)
             else:
                 coro = kicker.schedule_by_time(self, want.time, *want.args, **want.kwargs)
             created = self.env.loop.run_coro(coro)
-            if created.schedule_id != want.schedule_id or s["sid"] not in self.items:
+            if (not s.get("noid") and created.schedule_id != want.schedule_id) or s["sid"] not in self.items:
                 self.env.rec("loop_raised", s="schedule_not_created")
             return
         t = mk_task(s)
